@@ -27,24 +27,32 @@ def main():
             r = subprocess.run([os.path.join(HERE, "check"), p], env=env, stdout=subprocess.PIPE, stderr=subprocess.STDOUT, text=True, cwd=HERE)
             print(p, "rc=%d" % r.returncode, [l for l in r.stdout.split("\n") if l.startswith("VIOLATION")][:3], flush=True)
     os.makedirs(OUT, exist_ok=True)
-    raw = os.path.join(CACHE, "coverage_raw.json")
-    subprocess.run(["gcovr", "--root", "/", "--filter", r".*/(givaro|gmp\+\+|recint)/.*", "--filter", "/repo/src/.*", "--json", raw,
-                    "-j", "8", os.path.join(CACHE, "bin"), os.path.join(CACHE, "obj")],
-                   stdout=subprocess.PIPE, stderr=subprocess.PIPE, text=True)
-    d = json.load(open(raw))
+    # one gcovr run per build directory (the tree may have moved between builds: line numbers of one function then differ and gcovr
+    # refuses to merge); merged here per (file, function) and per (file, line)
+    import glob
+    dirs = sorted({os.path.dirname(g) for g in glob.glob(os.path.join(CACHE, "bin", "*", "*.gcda")) + glob.glob(os.path.join(CACHE, "obj", "*", "*.gcda"))})
     files = {}
-    for f in d["files"]:
-        real = os.path.realpath(f["file"] if f["file"].startswith("/") else "/" + f["file"])
-        if "/repo/src/" not in real:
+    for k, bd in enumerate(dirs):
+        raw = os.path.join(CACHE, "coverage_raw_%d.json" % k)
+        r = subprocess.run(["gcovr", "--root", "/", "--filter", r".*/(givaro|gmp\+\+|recint)/.*", "--filter", "/repo/src/.*",
+                            "--gcov-ignore-parse-errors", "--json", raw, bd], stdout=subprocess.PIPE, stderr=subprocess.PIPE, text=True, timeout=1800)
+        if not os.path.exists(raw):
+            print("gcovr failed on", bd, r.stderr[-300:])
             continue
-        rel = real.split("/repo/")[1]
-        e = files.setdefault(rel, {"lines": {}, "funcs": {}})
-        for l in f["lines"]:
-            if l.get("gcovr/noncode"):
+        d = json.load(open(raw))
+        os.unlink(raw)
+        for f in d["files"]:
+            real = os.path.realpath(f["file"] if f["file"].startswith("/") else "/" + f["file"])
+            if "/repo/src/" not in real:
                 continue
-            e["lines"][l["line_number"]] = e["lines"].get(l["line_number"], 0) + l["count"]
-        for fn in f.get("functions", []):
-            e["funcs"][fn["name"]] = e["funcs"].get(fn["name"], 0) + fn.get("execution_count", 0)
+            rel = real.split("/repo/")[1]
+            e = files.setdefault(rel, {"lines": {}, "funcs": {}})
+            for l in f["lines"]:
+                if l.get("gcovr/noncode"):
+                    continue
+                e["lines"][l["line_number"]] = e["lines"].get(l["line_number"], 0) + l["count"]
+            for fn in f.get("functions", []):
+                e["funcs"][fn["name"]] = e["funcs"].get(fn["name"], 0) + fn.get("execution_count", 0)
     names = sorted({n for e in files.values() for n in e["funcs"]})
     dem = {}
     if names:
